@@ -37,13 +37,13 @@ var Prop = &engine.Prop{
 	Rule: "kinds lenN / combineN are complete enumerations, identical in every run and independent of the seed: lenN = all 4^N step lists of length N " +
 		"(each step: ok = one Exec and nil | returns an error | panic(string) | panic(error)) x begin{ok,fail} x commit{ok,fail} x rollback{ok,fail}; " +
 		"combineN = the same lists regrouped into consecutive Combine(...) groups in all 2^(N-1) ways x {single steps passed raw | single steps wrapped in Combine and an empty Combine() put in front} x the 8 fault plans. " +
-		"quick: N = 0..4 (len) and 1..4 (combine); thorough: N = 0..6 and 1..5. The seed only selects which combinations are written into the trace. " +
+		"quick: N = 0..4 (len) and 1..4 (combine); thorough: N = 0..6 and 1..5. kinds prepstmt-* / gormpool-* repeat the blocks N <= 3 (thorough: 5 / 4) with gorm.Config{PrepareStmt: true} and on a gorm-level connection pool without database/sql. The seed only selects which combinations are written into the trace. " +
 		"kinds mixed / sequence / handles are seed-sampled extras outside the enumerated space (up to 10 leaves, nested Combine, refused Exec statements, other panic values, several transactions on one *gorm.DB; Transact on transactional / context-carrying handles and transactions finished behind Transact's back). " +
 		"evaluations = Transact calls judged; a combination is non-trivial when at least one injected fault actually fired (begin/commit/rollback/Exec refused, or a failing step ran); " +
 		"distinct = distinct (program text, fault plan) pairs among the non-trivial ones",
 	Assumptions: []string{
 		"the event log of the in-process database/sql driver (fakesql.go, ~200 lines) is what a database server would have seen; database/sql and gorm v1.25.1 with the MySQL dialector (Conn:, SkipInitializeWithVersion) run unmodified between Transact and that driver",
-		"\"finished exactly once\" is judged at the server: Commit/Rollback attempts that database/sql itself answers with ErrTxDone never reach the driver and are not counted",
+		"\"finished exactly once\" is judged at the server: Commit/Rollback attempts that database/sql itself answers with ErrTxDone never reach the driver and are not counted there; the gormpool set-up (a gorm.ConnPool / ConnPoolBeginner / TxCommitter of the harness instead of database/sql) logs every finish attempt gorm makes",
 		"a refused commit ends the transaction (the fake server forgets it), as MySQL does after a failed COMMIT on a lost connection",
 		"panic(nil) and runtime.Goexit inside a step are not generated (panic(nil) depends on the main module's GODEBUG default); nil step functions and a db that already carries an error are misuse and not generated",
 		"kind handles (Transact on a handle that is already a transaction, on a handle whose context is or gets cancelled, steps that finish the transaction themselves) is outside the stated fault space: only 'nil result => the server accepted a commit during the call', 'no accepted begin => no step ran' and 'no panic escapes' are judged there",
@@ -67,29 +67,37 @@ var Prop = &engine.Prop{
 		{Name: "combine3", Quick: 1, Thorough: 1, Fn: func(k *engine.Case) { enumCase(k, 3, true) }},
 		{Name: "combine4", Quick: 1, Thorough: 1, Fn: func(k *engine.Case) { enumCase(k, 4, true) }},
 		{Name: "combine5", Quick: 0, Thorough: 1, Fn: func(k *engine.Case) { enumCase(k, 5, true) }},
+		// the enumeration again with gorm's statement cache switched on, and on a gorm-level
+		// connection pool without database/sql (every finish attempt reaches the server log)
+		{Name: "prepstmt-len", Quick: 1, Thorough: 1, Fn: func(k *engine.Case) { enumModes(k, modePrepStmt, false) }},
+		{Name: "prepstmt-combine", Quick: 1, Thorough: 1, Fn: func(k *engine.Case) { enumModes(k, modePrepStmt, true) }},
+		{Name: "gormpool-len", Quick: 1, Thorough: 1, Fn: func(k *engine.Case) { enumModes(k, modePool, false) }},
+		{Name: "gormpool-combine", Quick: 1, Thorough: 1, Fn: func(k *engine.Case) { enumModes(k, modePool, true) }},
 		{Name: "mixed", Quick: 400, Thorough: 200000, Fn: mixedCase},
 		{Name: "sequence", Quick: 200, Thorough: 100000, Fn: sequenceCase},
 		{Name: "handles", Quick: 120, Thorough: 20000, Fn: handlesCase},
 	},
 	// All floors are far below what the (deterministic) enumeration produces.
 	Floors: map[string]int64{
-		"stated_space_combinations":    2728, // lengths 0..4: sum 4^N * 8, reached exactly in every run
-		"enum_combinations":            40000,
-		"enum_blocks_completed":        9,
-		"no_steps_nothing_begun":       8,
-		"begin_refused":                1000,
-		"committed":                    100,
-		"commit_refused":               100,
-		"rolled_back":                  500,
-		"rollback_refused":             500,
-		"first_failure_error":          300,
-		"first_failure_panic_string":   300,
-		"first_failure_panic_error":    300,
-		"leaves_skipped_after_failure": 500,
-		"combine_early_exit":           200,
-		"mixed_programs":               1000,
-		"sequence_transactions":        200,
-		"exec_refused":                 50,
+		"stated_space_combinations":      2728, // lengths 0..4: sum 4^N * 8, reached exactly in every run
+		"enum_combinations":              40000,
+		"enum_blocks_completed":          9,
+		"enum_blocks_completed_prepstmt": 7,
+		"enum_blocks_completed_gormpool": 7,
+		"no_steps_nothing_begun":         8,
+		"begin_refused":                  1000,
+		"committed":                      100,
+		"commit_refused":                 100,
+		"rolled_back":                    500,
+		"rollback_refused":               500,
+		"first_failure_error":            300,
+		"first_failure_panic_string":     300,
+		"first_failure_panic_error":      300,
+		"leaves_skipped_after_failure":   500,
+		"combine_early_exit":             200,
+		"mixed_programs":                 1000,
+		"sequence_transactions":          200,
+		"exec_refused":                   50,
 	},
 }
 
@@ -305,32 +313,55 @@ func (n *node) build(srv *server) gormx.GormProcFn {
 
 // ---------------------------------------------------------------- environment
 
+// envMode = what sits between gorm and the fake server.
+type envMode int
+
+const (
+	modeSQL      envMode = iota // database/sql + the fake driver (gorm's default set-up)
+	modePrepStmt                // the same with gorm.Config{PrepareStmt: true} (statement cache; transactions are PreparedStmtTX)
+	modePool                    // a gorm.ConnPool / ConnPoolBeginner of the harness, no database/sql
+)
+
+var modeNames = [...]string{"sql", "prepstmt", "gormpool"}
+
 type env struct {
+	mode  envMode
 	srv   *server
 	dsn   string
 	sqlDB *sql.DB
 	db    *gorm.DB
 }
 
-func newEnv() (*env, error) {
+func newEnv(mode envMode) (*env, error) {
 	srv, dsn := theDriver.newServer()
+	if mode == modePool {
+		db, err := gorm.Open(mysql.New(mysql.Config{Conn: &gpool{srv: srv}, SkipInitializeWithVersion: true}),
+			&gorm.Config{Logger: logger.Discard})
+		if err != nil {
+			theDriver.drop(dsn)
+			return nil, err
+		}
+		return &env{mode: mode, srv: srv, dsn: dsn, db: db}, nil
+	}
 	sqlDB, err := sql.Open(driverName, dsn)
 	if err != nil {
 		theDriver.drop(dsn)
 		return nil, err
 	}
 	db, err := gorm.Open(mysql.New(mysql.Config{Conn: sqlDB, SkipInitializeWithVersion: true}),
-		&gorm.Config{Logger: logger.Discard})
+		&gorm.Config{Logger: logger.Discard, PrepareStmt: mode == modePrepStmt})
 	if err != nil {
 		sqlDB.Close()
 		theDriver.drop(dsn)
 		return nil, err
 	}
-	return &env{srv: srv, dsn: dsn, sqlDB: sqlDB, db: db}, nil
+	return &env{mode: mode, srv: srv, dsn: dsn, sqlDB: sqlDB, db: db}, nil
 }
 
 func (e *env) close() {
-	e.sqlDB.Close()
+	if e.sqlDB != nil {
+		e.sqlDB.Close()
+	}
 	theDriver.drop(e.dsn)
 }
 
@@ -565,14 +596,17 @@ func judge(p *program, pl plan, o *outcome) (fs []finding) {
 
 type caseState struct {
 	k       *engine.Case
+	mode    envMode
 	e       *env
 	failed  map[string]int
 	logged  int
 	aborted bool
 }
 
-func newState(k *engine.Case) *caseState {
-	st := &caseState{k: k, failed: map[string]int{}}
+func newState(k *engine.Case) *caseState { return newStateMode(k, modeSQL) }
+
+func newStateMode(k *engine.Case, mode envMode) *caseState {
+	st := &caseState{k: k, mode: mode, failed: map[string]int{}}
 	st.fresh()
 	return st
 }
@@ -582,7 +616,7 @@ func (st *caseState) fresh() {
 		st.e.close()
 		st.e = nil
 	}
-	e, err := newEnv()
+	e, err := newEnv(st.mode)
 	if err != nil {
 		st.k.Inconclusive("cannot open the fake database: " + err.Error())
 		st.aborted = true
@@ -696,14 +730,14 @@ func (st *caseState) evaluate(p *program, pl plan, logIt bool) {
 	}
 	if fired {
 		k.Nontrivial()
-		k.Distinct(engine.HashStr(p.text + " | " + pl.String()))
+		k.Distinct(engine.HashStr(p.text + " | " + pl.String() + " | " + modeNames[st.mode]))
 		k.Count("fault_fired", 1)
 	} else {
 		k.Count("no_fault_fired", 1)
 	}
 
 	line := func() string {
-		return fmt.Sprintf("%s  %s  => events=%s result=%s", p.text, pl, eventsString(o.events), resultString(o))
+		return fmt.Sprintf("[%s] %s  %s  => events=%s result=%s", modeNames[st.mode], p.text, pl, eventsString(o.events), resultString(o))
 	}
 	if len(fs) == 0 {
 		if logIt && st.logged < 120 {
@@ -723,10 +757,10 @@ func (st *caseState) evaluate(p *program, pl plan, logIt bool) {
 		}
 		k.Logf("VIOLATED %s: %s", fd.class, fd.msg)
 		k.Logf("   program: %s", p.text)
-		k.Logf("   faults:  %s", pl)
+		k.Logf("   faults:  %s   (set-up: %s)", pl, modeNames[st.mode])
 		k.Logf("   events:  %s", eventsString(o.events))
 		k.Logf("   result:  %s", resultString(o))
-		k.Fail(fd.class, "%s | program: %s | faults: %s | events: %s | result: %s", fd.msg, p.text, pl, eventsString(o.events), resultString(o))
+		k.Fail(fd.class, "%s | program: %s | faults: %s | between gorm and the server: %s | events: %s | result: %s", fd.msg, p.text, pl, modeNames[st.mode], eventsString(o.events), resultString(o))
 	}
 	if dirty {
 		// do not let a transaction that was left open influence the next combination
@@ -787,8 +821,10 @@ func groupedProgram(kinds []leafKind, cuts int, combine, wrapSingles bool) *prog
 }
 
 // enumCase enumerates one complete block: all step lists of length n (x groupings) x 8 plans.
-func enumCase(k *engine.Case, n int, combine bool) {
-	st := newState(k)
+func enumCase(k *engine.Case, n int, combine bool) { enumCaseMode(k, n, combine, modeSQL) }
+
+func enumCaseMode(k *engine.Case, n int, combine bool, mode envMode) {
+	st := newStateMode(k, mode)
 	defer st.done()
 	lists := pow(int(nBaseKinds), n)
 	groupings, modes := 1, 1
@@ -858,6 +894,15 @@ func enumCase(k *engine.Case, n int, combine bool) {
 	if st.aborted {
 		return
 	}
+	if mode != modeSQL {
+		// the same blocks again on another set-up between gorm and the server: counted apart
+		tag := modeNames[mode]
+		k.Count("enum_combinations_"+tag, int64(idx))
+		if idx == total {
+			k.Count("enum_blocks_completed_"+tag, 1)
+		}
+		return
+	}
 	k.Count("enum_combinations", int64(idx))
 	if !combine {
 		k.Count(fmt.Sprintf("enum_len%d_combinations", n), int64(idx))
@@ -869,6 +914,24 @@ func enumCase(k *engine.Case, n int, combine bool) {
 	}
 	if idx == total {
 		k.Count("enum_blocks_completed", 1)
+	}
+}
+
+// enumModes: blocks of length 0..3 (combine: 1..3) on another set-up; thorough: up to 5 (4).
+func enumModes(k *engine.Case, mode envMode, combine bool) {
+	hi := 3
+	if k.C.Thorough() {
+		hi = 5
+		if combine {
+			hi = 4
+		}
+	}
+	lo := 0
+	if combine {
+		lo = 1
+	}
+	for n := lo; n <= hi; n++ {
+		enumCaseMode(k, n, combine, mode)
 	}
 }
 
@@ -932,7 +995,9 @@ func randomPlan(k *engine.Case) plan {
 }
 
 func mixedCase(k *engine.Case) {
-	st := newState(k)
+	mode := envMode(k.R.Intn(3))
+	k.Count("mixed_cases_"+modeNames[mode], 1)
+	st := newStateMode(k, mode)
 	defer st.done()
 	for i := 0; i < 25 && !st.aborted; i++ {
 		p := randomProgram(k, 10)
@@ -946,7 +1011,9 @@ func mixedCase(k *engine.Case) {
 // sequenceCase: several Transact calls one after the other on the same *gorm.DB (and
 // therefore the same connection pool); each is judged on its own slice of the log.
 func sequenceCase(k *engine.Case) {
-	st := newState(k)
+	mode := envMode(k.R.Intn(3))
+	k.Count("sequence_cases_"+modeNames[mode], 1)
+	st := newStateMode(k, mode)
 	defer st.done()
 	n := 4 + k.R.Intn(12)
 	for i := 0; i < n && !st.aborted; i++ {
